@@ -258,8 +258,14 @@ func init() {
 		if mp := a[3].(*Ptr); !IsNilPtr(mp) {
 			m = in.bigTerm(mp)
 		}
-		if !y.IsConst() {
-			panic(unsupported{"big.Int.Exp with symbolic exponent"})
+		if !y.IsConst() || (y.big.BitLen() > 12 && !x.IsConst()) {
+			// arbitrary result: an uninterpreted function of the operands
+			mm := in.tt.IntI(0)
+			if m != nil {
+				mm = m
+			}
+			in.stubsUsed["big.Int.Exp with symbolic operands: uninterpreted function"]++
+			return in.setBig(a[0].(*Ptr), in.tt.App("BIGEXP", IntSort, x, y, mm))
 		}
 		useMod := false
 		if m != nil {
